@@ -164,3 +164,11 @@ def t_tuple_list_ops():
     l2 = l[:]
     l2.reverse()
     return t + (4,), t * 2, t[1:], t.index(2), l, l2, l + [9], l * 0, [1, [2, [3]]][1][1][0], list("ab"), tuple([1]), [*t, *l], t < (1, 2, 4), [1, 2] < [1, 3], l.pop(0), l, l.count(2), (t, l)[0] is t
+
+
+def t_function_level_import():
+    import struct as st
+    from io import BytesIO as B
+
+    b = B(b"\x01\x02")
+    return st.pack("<H", 513), b.read(1), st.calcsize("<Q")
